@@ -395,6 +395,90 @@ def judge_planner_pair(ck, plain, job, ra, rb, excluded=False):
     return False
 
 
+
+# ---------------------------------------------------------------------------------- sampler level
+SAMP_SPACES = ["rv1", "rv3", "so2", "so3", "se2", "se3", "discrete", "time", "timeb", "dubins", "reedsshepp",
+               "cz", "cnest", "wrap-se2", "wrap-cz"]
+SAMP_SUBSPACES = {"se2": 2, "se3": 2, "dubins": 2, "reedsshepp": 2, "cz": 4, "cnest": 3}
+SAMP_VALID = ["uniform", "gauss", "obstacle", "bridge", "maxclear", "minclear"]
+
+
+def sampler_lines(n):
+    out = []
+    for sp in SAMP_SPACES:
+        kinds = ["uniform", "near", "gauss"]
+        for j in range(SAMP_SUBSPACES.get(sp, 0)):
+            kinds += ["sub%d-%s" % (j, c) for c in ("uniform", "near", "gauss")]
+        for v in SAMP_VALID:
+            kinds += ["valid-" + v, "valid-%s-near" % v]
+        for k in kinds:
+            out.append((sp, k, n))
+    return out
+
+
+def samp_script(seed, specs, fill):
+    return ["samp", "seed %d" % seed] + ["samp space=%s kind=%s fill=%d n=%d" % (sp, k, fill, n) for sp, k, n in specs]
+
+
+def parse_samp(line):
+    f = dict(t.split("=", 1) for t in line.split())
+    lo, hi = map(int, f["mask"].split(":"))
+    return int(f["len"]), lo, hi, f["r"], [bytes.fromhex(h) for h in f["out"].split(",")] if f.get("out") else []
+
+
+def samp_compare(kind, la, lb, fa, fb_):
+    """None if the two output lines (same draws, output state pre-filled differently) are consistent."""
+    if la in ("bad-op", "not-applicable") or lb in ("bad-op", "not-applicable"):
+        return None if la == lb else "answers differ: %r vs %r" % (la, lb)
+    L, lo, hi, ra, oa = parse_samp(la)
+    L2, lo2, hi2, rb, ob = parse_samp(lb)
+    if (L, lo, hi) != (L2, lo2, hi2) or len(oa) != len(ob):
+        return "shape differs"
+    if ra != rb:
+        return "return values differ (%s vs %s): the sampler read the garbage in its output state" % (ra, rb)
+    for it, (x, y) in enumerate(zip(oa, ob)):
+        if ra[it] != "1":
+            continue        # a valid-state sampler that returned false promises nothing about the state
+        if x[lo:hi] != y[lo:hi]:
+            bad = [i for i in range(lo, hi) if x[i] != y[i]]
+            return ("call %d: output bytes %d..%d depend on what the output state held before the call"
+                    % (it, bad[0], bad[-1]))
+        if kind.startswith("sub"):
+            for i in list(range(0, lo)) + list(range(hi, L)):
+                if x[i] != (fa + 7 * i + 13 * it) & 0xff or y[i] != (fb_ + 7 * i + 13 * it) & 0xff:
+                    return "call %d: SubspaceStateSampler touched byte %d outside its subspace" % (it, i)
+    return None
+
+
+def sampler_check(ck, plain, quick):
+    specs = sampler_lines(4 if quick else 12)
+    r = ck.rng.fork("sampler-seeds")
+    seeds = [1 + r.below(1 << 30) for _ in range(2 if quick else 8)]
+    fa, fb_ = 3, 200
+    bad = 0
+    for seed in seeds:
+        a, rca, erra = ck.run_bin(plain, samp_script(seed, specs, fa), env=variant_env(0))
+        b, rcb, errb = ck.run_bin(plain, samp_script(seed, specs, fb_), env=variant_env(1))
+        a, b = a or [], b or []
+        if rca != 0 or rcb != 0 or len(a) != len(specs) + 1 or len(b) != len(specs) + 1:
+            raise RuntimeError("sampler script died: rc=%s/%s %s" % (rca, rcb, ((erra or "") + (errb or ""))[-400:]))
+        for (sp, k, n), la, lb in zip(specs, a[1:], b[1:]):
+            ck.count("sampler-calls-compared", n if la.startswith("len=") else 0)
+            ck.count("sampler-kind:" + ("subspace" if k.startswith("sub") else "valid" if k.startswith("valid") else "default"))
+            if la.startswith("len="):
+                ck.case(("samp", sp, k, seed), "1" in parse_samp(la)[3])
+            why = samp_compare(k, la, lb, fa, fb_)
+            if why is not None and bad < 4:
+                bad += 1
+                one = [(sp, k, n)]
+                ck.report({"engine": "rng", "kind": "sampler-output-depends-on-garbage", "space": sp, "sampler": k, "what": why},
+                          script=samp_script(seed, one, fa), expected={"fill": fa, "line": la[:400]},
+                          observed={"fill": fb_, "line": lb[:400], "what": why, "in_full_script": samp_script(seed, specs, fb_)[:3] + ["…"]},
+                          engine="rng")
+                ck.log("sampler %s/%s: %s" % (sp, k, why))
+    ck.log("sampler level: %d (space, sampler, call kind) combinations x %d seeds, %d failing" % (len(specs), len(seeds), bad))
+    return bad
+
 # ---------------------------------------------------------------------------------- the check
 def corpus():
     d = os.path.join(core.VERIF, "corpus", "C20")
@@ -538,7 +622,8 @@ def setup(ck):
 
 
 def run(ck):
-    ck.rule = ("(a) rng scripts (one process each): seeding / reseed-history / stream / adversarial, distinct by text; "
+    ck.rule = ("(s) sampler cases = (space, sampler, call kind, seed), non-trivial if some call returned a state; "
+               "(a) rng scripts (one process each): seeding / reseed-history / stream / adversarial, distinct by text; "
                "non-trivial if >= 10 generators are created or a reseed follows Gaussian draws; (b) planner cases = "
                "(planner, environment, seed, evaluation budget), each run in two separate processes; non-trivial if "
                "the run made >= 100 evaluations")
@@ -644,6 +729,9 @@ def run(ck):
                 bad += 1
     ck.log("rng protocol: %d scripts, %d disagreement(s), %d failing" % (ck.traces_validated, ck.disagreements, bad))
 
+    # ---- sampler level: outputs are a function of draws and inputs, never of the output state's old content ----
+    sampler_check(ck, plain, quick)
+
     # ---- planner determinism across processes ------------------------------------------------------
     jobs = planner_jobs(ck, ck.tier)
     use_asan_third = not quick
@@ -704,6 +792,24 @@ def replay(ck, data):
             return 1
         print("no divergence on the current tree")
         return 0
+    if script and script[0] == "samp":
+        plain = ck.build_harness("rng_plain", ["rng.cpp"], link_ompl=True, sanitize="", opt="-O1")
+        alt = [l.replace("fill=3 ", "fill=200 ") for l in script]
+        a = ck.run_bin(plain, script)[0] or []
+        b = ck.run_bin(plain, alt)[0] or []
+        rc = 0
+        for ln, la, lb in zip(script[2:], a[1:], b[1:]):
+            k = dict(t.split("=", 1) for t in ln.split()[1:])["kind"]
+            why = samp_compare(k, la, lb, 3, 200)
+            print(ln)
+            print("  output state pre-filled with pattern 3:   %s" % la[:260])
+            print("  output state pre-filled with pattern 200: %s" % lb[:260])
+            if why:
+                print("PROPERTY FAILS: " + why)
+                rc = 1
+        if rc == 0:
+            print("no failure on the current tree")
+        return rc
     hbin = ck.build_harness("rng", ["rng.cpp"], link_ompl=True)
     ck.lean_build([DRIVER])
     body = script[1:]
